@@ -217,7 +217,12 @@ func checkC17(rc *RunCtx) {
 	}
 }
 
-func c17Run(rc *RunCtx, cw *c17World) {
+func c17Run(rc *RunCtx, cw *c17World) { c17RunMode(rc, cw, false) }
+
+// c17RunMode: nodeStateOnly restricts the enumeration to commits whose votes are {valset signature, attestation, absent}
+// and evaluates only the node-local-state oracle (used by C01: the same block must execute identically on a node that
+// validated another proposal for that height before).
+func c17RunMode(rc *RunCtx, cw *c17World, nodeStateOnly bool) {
 	f0, h := cw.stage()
 	bk := f0.App.BridgeKeeper
 	// validators in commit order
@@ -324,8 +329,17 @@ func c17Run(rc *RunCtx, cw *c17World) {
 		}
 	}
 	total := nOpt * nOpt * nOpt
+	var prevAccepted [][]byte // the last accepted proposal with other content (same height)
 	for code := 0; code < total; code++ {
-		if !rc.Mine() {
+		if nodeStateOnly {
+			ok := true
+			for _, o := range []int{code % nOpt, (code / nOpt) % nOpt, code / (nOpt * nOpt)} {
+				ok = ok && (o == 6 || o == 9 || o == nPayload)
+			}
+			if !ok {
+				continue
+			}
+		} else if !rc.Mine() {
 			continue
 		}
 		if rc.TimeUp() {
@@ -442,6 +456,43 @@ func c17Run(rc *RunCtx, cw *c17World) {
 			continue
 		}
 		rc.Count("accepted_proposals", 1)
+		// ---- node-local state: executing this block gives the same bridge state on a node that replays it only and on a
+		// node whose (one) proposal handler validated another proposal for this height before ----
+		{
+			replayOnly, _ := ctx.CacheContext()
+			_, pre1 := f0.App.VerifHandlerPair()
+			var d1 string
+			func() {
+				defer func() { _ = recover() }()
+				if _, err := pre1(replayOnly, &abci.RequestFinalizeBlock{Height: h, Txs: txs}); err == nil {
+					d1 = storeDigestCtx(f0, replayOnly, "bridge")
+				}
+			}()
+			if prevAccepted != nil && !bytes.Equal(prevAccepted[0], txs[0]) && d1 != "" {
+				ph2, pre2 := f0.App.VerifHandlerPair()
+				other, _ := ctx.CacheContext()
+				func() {
+					defer func() { _ = recover() }()
+					if res, err := ph2.ProcessProposalHandler(ctx, &abci.RequestProcessProposal{Height: h, Txs: prevAccepted}); err == nil && res != nil && res.Status == abci.ResponseProcessProposal_ACCEPT {
+						if _, err := pre2(other, &abci.RequestFinalizeBlock{Height: h, Txs: txs}); err == nil {
+							rc.Count("node_state_pairs_checked", 1)
+							if d2 := storeDigestCtx(f0, other, "bridge"); d2 != d1 {
+								sig := "voteext|execution-depends-on-earlier-proposal"
+								if nodeStateOnly {
+									sig = "determinism|node-local-state|proposal-handler"
+								}
+								rc.Violate(Violation{Oracle: "execution-depends-on-earlier-proposal", Sig: sig, Detail: "the bridge state after PreBlocker differs between a node that only replays the block and a node whose proposal handler validated another proposal for the same height before [world " + cw.name + "]", Scenario: cw.name, Trace: desc, NDev: len(desc)})
+							}
+						}
+					}
+				}()
+			}
+			prevAccepted = txs
+		}
+		if nodeStateOnly {
+			rc.Count("executions", 1)
+			continue
+		}
 		var inj app.VoteExtTx
 		if err := json.Unmarshal(txs[0], &inj); err != nil {
 			fail("injected-not-json", "accepted proposal's first tx is not the injected JSON", desc)
@@ -588,6 +639,20 @@ func storeDumpCtx(w *World, ctx sdk.Context, name string) int {
 		n++
 	}
 	return n
+}
+
+// storeDigestCtx hashes every key and value of one store as seen through ctx.
+func storeDigestCtx(w *World, ctx sdk.Context, name string) string {
+	h := sha256.New()
+	it := ctx.KVStore(w.App.GetKey(name)).Iterator(nil, nil)
+	defer it.Close()
+	for ; it.Valid(); it.Next() {
+		h.Write(it.Key())
+		h.Write([]byte{0})
+		h.Write(it.Value())
+		h.Write([]byte{1})
+	}
+	return hex.EncodeToString(h.Sum(nil))
 }
 
 type c17Mutant struct {
